@@ -569,8 +569,13 @@ def gen_history(rng):
     calls = []
     for c in range(k):
         n = n0 if same_len else rng.randint(1, 8)
-        shape = rng.choice(["spread", "packed", "packed", "random"])
-        if shape == "spread":
+        shape = rng.choice(["spread", "packed", "packed", "random", "roles"])
+        if shape == "roles":
+            specs = [dict(x) for x in gen_roles(rng, n)["instrs"]]
+            for x in specs:
+                x.pop("dur", None)
+                x.pop("how", None)
+        elif shape == "spread":
             qs = list(range(5))
             rng.shuffle(qs)
             specs = [dict(name=rng.choice(["X", "RZ", "Z", "SNOT"]), targets=[qs[i % 5]], controls=None, arg=None) for i in range(n)]
@@ -608,6 +613,48 @@ def gen_compile(rng):
     return dict(instrs=specs, method=rng.choice(["ASAP", "ALAP"]), perm=True, random=False, shuf_seed=0, mode="compile")
 
 
+def role_form(rng, a, b, c=None):
+    """a gate whose matrix depends on the ORDER / ROLE in which its qubits are listed: the non-symmetric user gate and
+    RZX on permuted targets, plain Gate objects with targets-only or any control/target split"""
+    x = rng.choice([0.5, 1.25])
+    if rng.random() < 0.5:
+        a, b = b, a
+    r = rng.random()
+    if r < 0.40:
+        return dict(name=USER_GATE, targets=[a, b], controls=None, arg=x)
+    if r < 0.55:
+        return dict(name=USER_GATE, targets=[b], controls=[a], arg=x)
+    if r < 0.70:
+        return dict(name="RZX", targets=[a, b], controls=None, arg=x)
+    if r < 0.80:
+        k = rng.choice(["CNOT", "CZ", "CRX"])
+        return dict(name=k, targets=[a, b], controls=None, generic=True, arg=x if k == "CRX" else None)
+    if r < 0.88:
+        return dict(name="CNOT", targets=[], controls=[a, b], arg=None, generic=True)
+    if r < 0.94 or c is None:
+        return dict(name="SWAP", targets=[b], controls=[a], arg=None, generic=True)
+    return dict(name=rng.choice(["TOFFOLI", "FREDKIN"]), targets=[c], controls=[a, b], arg=None, generic=True)
+
+
+def gen_roles(rng, n=None):
+    """lists dominated by order/role-sensitive gates on ONE pair of qubits (so the same qubits occur in different
+    orders), equal parameters from a two-letter alphabet, two-valued or nanosecond durations so that the priority
+    reverses equal-looking neighbours under ASAP and ALAP"""
+    N = rng.choice([2, 3, 3])
+    a, b = rng.sample(range(N), 2)
+    c = [q for q in range(N) if q not in (a, b)][0] if N == 3 else None
+    n = n or rng.randint(2, 6)
+    specs = []
+    for _ in range(n):
+        if rng.random() < 0.8:
+            specs.append(role_form(rng, a, b, c))
+        else:
+            specs.append(rand_gate(rng, N, ["X", "RZ", "SNOT", "CNOT", "RZX"]))
+    specs = with_durations(rng, specs, rng.choice(["two", "two", "any", "nano", "nano-mixed"]))
+    return dict(instrs=specs, method=rng.choice(["ASAP", "ALAP"]), perm=rng.random() < 0.85,
+                random=rng.random() < 0.2, shuf_seed=rng.randrange(10 ** 6), mode="pulse")
+
+
 PARAM_ALPHABET = [0.5, 1.25]     # small on purpose: equal-prefix / equal-suffix / fully equal parameter tuples occur
 
 
@@ -632,7 +679,8 @@ def gen_multiparam(rng):
             else:
                 specs.append(dict(name=fam, targets=[q0], controls=None, arg=[a(), a(), a()]))
         else:
-            specs.append(rand_gate(rng, max(N, 2), ["X", "RZ", "CNOT", "SNOT", "QASMU", "R"]) if N >= 2
+            specs.append((role_form(rng, 0, 1) if rng.random() < 0.5 else
+                          rand_gate(rng, max(N, 2), ["X", "RZ", "CNOT", "SNOT", "QASMU", "R"])) if N >= 2
                          else dict(name=rng.choice(["X", "Z", "SNOT"]), targets=[0], controls=None, arg=None))
     specs = with_durations(rng, specs, rng.choice(["two", "two", "any", "nano", "nano-mixed"]))
     return dict(instrs=specs, method=rng.choice(["ASAP", "ALAP"]), perm=rng.random() < 0.85,
@@ -702,6 +750,9 @@ def correspond(ctx):
     # several-parameter gates with parameter tuples from a small alphabet (equal suffix / prefix / equal tuples)
     for _ in range(ctx.n(500, 2000)):
         exact.append(("multi-parameter-same-target", gen_multiparam(rng)))
+    # order/role-sensitive gates (user gate, RZX, plain Gate objects with unusual control/target splits)
+    for _ in range(ctx.n(500, 2000)):
+        exact.append(("role-and-order-forms", gen_roles(rng)))
     # exhaustive small alphabet, two durations
     ex = list(exhaustive_inputs(ctx.n(2, 4)))
     if not ctx.thorough:
@@ -808,7 +859,7 @@ def search(ctx, broken):
     rng = ctx.rng
     cands += [gen_input(rng, 10, mode="pulse") for _ in range(2000)]
     cands += [i for _ in range(400) for i in gen_history(rng) if i["mode"] == "pulse"]
-    cands += [gen_compile(rng) for _ in range(600)] + [gen_multiparam(rng) for _ in range(600)]
+    cands += [gen_compile(rng) for _ in range(600)] + [gen_multiparam(rng) for _ in range(600)] + [gen_roles(rng) for _ in range(600)]
     for inp in cands:
         res, _ = run_real(inp)
         if isinstance(res, str):
